@@ -288,6 +288,14 @@ def parse_expr(toks, env):
         return e
     if toks[0] == ("op", "!"):
         return ("WNot", parse_expr(toks[1:], env))
+    # c == 0 / c != 0 / c > 0 where c is opt.count(KEY) (an occurrence count: 0 iff not given)
+    for op, neg in (("==", True), ("!=", False), (">", False)):
+        parts = split_top(toks, op)
+        if len(parts) == 2 and parts[1] == [("num", "0")]:
+            lhs = parse_expr(parts[0], env)
+            if lhs[0] == "WCount":
+                return ("WNot", lhs) if neg else lhs
+            return ("WOther", txt(toks))
     ov = ("id", env.optvar)
     # opt[KEY].as<T>()
     if toks[0] == ov and len(toks) > 2 and toks[1] == ("op", "["):
@@ -397,6 +405,33 @@ def has_other(e):
     if e[0] == "WOther":
         return True
     return any(isinstance(x, tuple) and has_other(x) for x in e[1:])
+
+
+def expr_mentions(e, optvar):
+    """does the (resolved) expression depend on the parsed command line?"""
+    if e[0] in ("WAs", "WCount"):
+        return True
+    if e[0] == "WOther":
+        return re.search(r"(?<![\w])%s(?![\w])" % re.escape(optvar), e[1]) is not None
+    return any(isinstance(x, tuple) and expr_mentions(x, optvar) for x in e[1:])
+
+
+def toks_mention(toks, env):
+    for t in toks:
+        if t == ("id", env.optvar):
+            return True
+        if t[0] == "id" and t[1] in env.vars and expr_mentions(env.vars[t[1]], env.optvar):
+            return True
+    return False
+
+
+def ends_with_return(stmt):
+    """the statement unconditionally ends in `return ...;`"""
+    if stmt[0] == "simple":
+        return bool(stmt[1]) and stmt[1][0] == ("id", "return")
+    if stmt[0] == "block":
+        return bool(stmt[1]) and ends_with_return(stmt[1][-1])
+    return False
 
 
 def mentions_options(e):
@@ -677,27 +712,24 @@ def translate_main(toks, maps):
                     env.vars.pop(d, None)
         elif k == "if":
             rets = returns_in(s[2])
-            if rets and s[3] is None:
+            if rets and s[3] is None and ends_with_return(s[2]):
                 code = number(rets[-1])
                 if code is None:
                     raise TranslateError("return value not a literal: " + txt(rets[-1]))
+                test = parse_test(s[1], env)
+                about_options = expr_mentions(test[1], env.optvar) if test[0] != "XOther" \
+                    else toks_mention(s[1], env)
+                if not about_options:
+                    # a test on the library's result (or on nothing the command line decides)
+                    io_runtime.append("exit %d when %s" % (int(code[0]), txt(
+                        [x for c in cond_stack for x in list(c) + [("op", "&&")]] + list(s[1]))))
+                    return
                 if any(c for c in cond_stack):
-                    # a conditional early exit nested in another condition
-                    test = parse_test(s[1], env)
                     outer = conj(cond_stack)
                     if test[0] == "XIf":
                         test = ("XIf", ("WAnd", outer, test[1]))
                     else:
                         test = ("XOther", txt(s[1]))
-                    if not mentions_options(test[1]) if test[0] == "XIf" else False:
-                        return
-                    exits.append((test, int(code[0])))
-                    return
-                test = parse_test(s[1], env)
-                if test[0] == "XOther" and not any(tok[0] == "id" and (tok[1] in env.vars or tok[1] == env.optvar)
-                                                   for tok in s[1]):
-                    io_runtime.append("exit %d when %s" % (int(code[0]), txt(s[1])))
-                    return
                 exits.append((test, int(code[0])))
                 return
             run_stmt(s[2], cond_stack + [s[1]])
@@ -903,7 +935,6 @@ def emit(tab):
     o.append("")
     o.append("Definition gen_catch : list Z := [%s]." % "; ".join(cz(c) for c in tab["catch"]))
     o.append("")
-    o.append("Inductive read_loop := LoopGetline | LoopStreamThenGetline | LoopOther.")
     o.append("Definition gen_read_loop : read_loop := %s." % tab["read_loop"])
     o.append("")
     o.append("Definition gen_help : list (string * string) := " + clist(
@@ -936,6 +967,14 @@ def translate(repo):
     tab = translate_main(mtoks, maps)
     tab["maps"] = maps
     tab["read_loop"] = loop
+    # canonical order where the order has no meaning: kwargs items (ParametersSet is a map),
+    # option declarations (only the help text depends on it), map entries (std::map).
+    # Duplicates are kept (stable sort), so a keyword bound twice stays visible.
+    tab["wiring"] = sorted(tab["wiring"], key=lambda kv: kv[0])
+    order = {names[0]: i for i, (names, _) in enumerate(tab["options"])}
+    tab["options"] = sorted(tab["options"], key=lambda o: o[0][0])
+    tab["help"] = sorted(tab["help"], key=lambda h: h[0])
+    tab["maps"] = [(n, sorted(es, key=lambda kv: kv[0])) for n, es in tab["maps"]]
     return tab
 
 
@@ -956,6 +995,8 @@ MUTATIONS = [
     (MAIN, "tapkee::spe_global_strategy = opt.count(SPE_LOCAL_KEYWORD)",
      "tapkee::spe_global_strategy = !opt.count(SPE_LOCAL_KEYWORD)", "wiring"),
     (MAIN, "tapkee::spe_global_strategy = !opt.count(SPE_LOCAL_KEYWORD)",
+     "tapkee::spe_global_strategy = opt.count(SPE_LOCAL_KEYWORD)", "wiring"),
+    (MAIN, "tapkee::spe_global_strategy = (opt.count(SPE_LOCAL_KEYWORD) == 0)",
      "tapkee::spe_global_strategy = opt.count(SPE_LOCAL_KEYWORD)", "wiring"),
     (MAIN, "if (k < 3)", "if (k < 2)", "exits"),
     (MAIN, "if (target_dim <= 0)", "if (target_dim < 0)", "exits"),
